@@ -412,6 +412,14 @@ sqf::runtime::runtime::result sqf::runtime::runtime::execute(sqf::runtime::runti
                         else
                         {
                             res = result::ok;
+                            if (configuration().max_runtime != std::chrono::milliseconds::zero() &&
+                                configuration().max_runtime + m_run_timestamp < std::chrono::system_clock::now())
+                            { // The limit also holds while every script is asleep
+                                __logmsg(logmessage::runtime::MaximumRuntimeReached(m_context_active->empty() ? sqf::runtime::diagnostics::diag_info{} : m_context_active->current_frame().diag_info_from_position(), configuration().max_runtime));
+                                m_runtime_error = false;
+                                log_messages.clear();
+                                exit(0);
+                            }
                         }
                     }
                     else
